@@ -14,6 +14,7 @@ import (
 	"net/http"
 	"net/http/httptest"
 	"os"
+	"sort"
 	"strings"
 	"time"
 
@@ -46,9 +47,18 @@ type rpcWorld struct {
 	http   interface {
 		HandleRequest(w http.ResponseWriter, r *http.Request)
 	}
-	wsURL  string
-	valid  map[string]map[string]interface{}
-	wsConn *websocket.Conn
+	wsURL   string
+	valid   map[string]map[string]interface{}
+	wsConn  *websocket.Conn
+	methods []string // namespace_method of every endpoint registered on the router, as registered (run time, not a list)
+	ws      wsServer
+}
+
+// wsServer: what the engine uses of the websocket server (rpc.NewWSJSONRPCServer returns an unexported type)
+type wsServer interface {
+	Publish(method string, data []byte)
+	ListenAndServe() error
+	Close() error
 }
 
 func (w *World) setupRPC() (*rpcWorld, error) {
@@ -67,11 +77,13 @@ func (w *World) setupRPC() (*rpcWorld, error) {
 	if err := rt.Init(n.DB, w.logger, n.Chain); err != nil {
 		return nil, err
 	}
+	registered := []string{}
 	reg := func(ns string, hs router.EndpointHandlers) error {
 		for m, h := range hs {
 			if err := rt.RegisterEndpoint(ns, m, h); err != nil {
 				return err
 			}
+			registered = append(registered, ns+"_"+m)
 		}
 		return nil
 	}
@@ -96,7 +108,8 @@ func (w *World) setupRPC() (*rpcWorld, error) {
 		}
 		wr.Write(resp)
 	})
-	rw := &rpcWorld{router: rt, http: rpc.NewHTTPJSONServer(w.logger, 0, "", rt)}
+	sort.Strings(registered)
+	rw := &rpcWorld{router: rt, http: rpc.NewHTTPJSONServer(w.logger, 0, "", rt), methods: registered}
 	// websocket server on a free loopback port
 	l, err := net.Listen("tcp", "127.0.0.1:0")
 	if err != nil {
@@ -105,6 +118,7 @@ func (w *World) setupRPC() (*rpcWorld, error) {
 	port := l.Addr().(*net.TCPAddr).Port
 	l.Close()
 	ws := rpc.NewWSJSONRPCServer(w.logger, port, "127.0.0.1", rt)
+	rw.ws = ws
 	go ws.ListenAndServe() //nolint:errcheck // stays up for the whole run
 	rw.wsURL = fmt.Sprintf("ws://127.0.0.1:%d/rpc-ws", port)
 	for i := 0; i < 100; i++ {
@@ -422,4 +436,42 @@ func (rw *rpcWorld) rpcInputs(c *rpcCase) (string, []byte) {
 		return "rpc.http.HandleRequest", rw.envelope(c, p)
 	}
 	return "rpc.ws", rw.envelope(c, p)
+}
+
+// methodModel: the methods TLC enumerates (spec/RpcFuzz.tla reads them from the bases file): every endpoint registered on
+// the router at run time, with the fields of its params object when the harness has a valid params value for it
+// (kind by the JSON type of that value and the field name), plus the application namespace.
+func (rw *rpcWorld) methodModel() []map[string]interface{} {
+	out := []map[string]interface{}{}
+	names := append([]string{}, rw.methods...)
+	names = append(names, "token_getBalance")
+	for _, m := range names {
+		fs := [][]string{}
+		keys := []string{}
+		for k := range rw.valid[m] {
+			keys = append(keys, k)
+		}
+		sort.Strings(keys)
+		for _, k := range keys {
+			kind := "str"
+			switch rw.valid[m][k].(type) {
+			case int, float64, uint32, uint64:
+				kind = "num"
+			case bool:
+				kind = "bool"
+			case map[string]interface{}:
+				kind = "obj"
+			case string:
+				switch {
+				case strings.Contains(strings.ToLower(k), "address"):
+					kind = "addr"
+				case k == "id":
+					kind = "hex"
+				}
+			}
+			fs = append(fs, []string{k, kind})
+		}
+		out = append(out, map[string]interface{}{"m": m, "f": fs})
+	}
+	return out
 }
